@@ -20,7 +20,7 @@ META = {
 
 # callee suffix -> indices of operands that must be bounded
 PARTIAL = [
-    (('ops::Add::add', 'ops::Sub::sub', 'ops::AddAssign::add_assign', 'ops::SubAssign::sub_assign'), ('std::time::Instant', 'std::time::SystemTime', 'std::time::Duration'), (0, 1)),
+    (('ops::Add::add', 'ops::Sub::sub', 'ops::AddAssign::add_assign', 'ops::SubAssign::sub_assign'), ('std::time::Instant', 'std::time::SystemTime', 'std::time::Duration', 'tokio::time::Instant'), (0, 1)),
     (('DelayQueue::insert', 'DelayQueue::reset'), None, (2,)),
     (('DelayQueue::insert_at', 'DelayQueue::reset_at'), None, (2,)),
     (('humantime::format_rfc3339', 'humantime::format_rfc3339_seconds', 'humantime::format_rfc3339_millis', 'humantime::format_rfc3339_micros', 'humantime::format_rfc3339_nanos'), None, (0,)),
